@@ -62,7 +62,8 @@ type Evaluator struct {
 	batch int
 	keep  bool
 
-	// verdicts per tree hash (language-specific), shared across batches
+	// verdicts per tree hash (language-specific), shared across batches; vmu guards it and the counters
+	vmu      sync.Mutex
 	verdicts map[string][]rawDiag
 	// static files per "lang/relpath" -> set of content hashes seen in the baseline outputs
 	static map[string]map[string]bool
@@ -244,21 +245,23 @@ func (e *Evaluator) evalBatch(cases []*Case) {
 	e.filesScanned += int(scanned)
 	e.filesStatic += int(static)
 
-	if l := byLang["go"]; len(l) > 0 {
-		t := time.Now()
-		e.checkGo(l, files)
-		e.timeGo += time.Since(t)
+	// the three toolchains run side by side (they share nothing but the verdict table, which is locked)
+	var wg sync.WaitGroup
+	check := func(lang string, f func([]*Case, map[string][]string), acc *time.Duration) {
+		if l := byLang[lang]; len(l) > 0 {
+			wg.Add(1)
+			go func() {
+				defer wg.Done()
+				t := time.Now()
+				f(l, files)
+				*acc += time.Since(t)
+			}()
+		}
 	}
-	if l := byLang["python"]; len(l) > 0 {
-		t := time.Now()
-		e.checkPython(l, files)
-		e.timePy += time.Since(t)
-	}
-	if l := byLang["java"]; len(l) > 0 {
-		t := time.Now()
-		e.checkJava(l, files)
-		e.timeJava += time.Since(t)
-	}
+	check("go", e.checkGo, &e.timeGo)
+	check("python", e.checkPython, &e.timePy)
+	check("java", e.checkJava, &e.timeJava)
+	wg.Wait()
 	for _, c := range cases {
 		if c.Status == "ok" && len(c.Diags) > 0 {
 			e.unitsBroken[c.Cfg.Lang]++
@@ -326,6 +329,7 @@ func (e *Evaluator) dedup(cases []*Case, files map[string][]string, exts ...stri
 	hashOf = map[string]string{}
 	repOf := map[string]*Case{}
 	lang := ""
+	e.vmu.Lock()
 	for i, c := range cases {
 		lang = c.Cfg.Lang
 		h := hashes[i]
@@ -343,6 +347,7 @@ func (e *Evaluator) dedup(cases []*Case, files map[string][]string, exts ...stri
 		reps = append(reps, c)
 		e.distinctTrees[lang]++
 	}
+	e.vmu.Unlock()
 	if !e.keep {
 		var drop []*Case
 		for _, c := range cases {
@@ -363,7 +368,10 @@ func (e *Evaluator) applyVerdicts(cases []*Case, hashOf map[string]string) {
 		for _, d := range c.Diags {
 			seen[d.Key()] = true
 		}
-		for _, rd := range e.verdicts[hashOf[c.ID]] {
+		e.vmu.Lock()
+		vd := e.verdicts[hashOf[c.ID]]
+		e.vmu.Unlock()
+		for _, rd := range vd {
 			d := Diag{Clause: rd.Clause, Norm: normDiag(strings.ReplaceAll(rd.Text, "UNIT", "<id>"), abs), Raw: strings.ReplaceAll(rd.Text, "UNIT", c.ID)}
 			if !seen[d.Key()] {
 				seen[d.Key()] = true
